@@ -3,7 +3,7 @@
    run guarantees, that the library's own path check and status constructor mean what the rule assumes, and that the
    single-tree planner skeleton can only produce admissible reports — for every history of extension attempts. *)
 From Coq Require Import List ZArith Bool Floats.
-From OmplV Require Import LedgerModel LedgerProofs MotionModel MotionProofs EitModel EitProofs RrtModel RrtProofs RrtConnectModel RrtConnectProofs LazyRrtModel LazyRrtProofs PdfModel EstModel EstProofs EstFloat RrtStarModel RrtStarProofs.
+From OmplV Require Import LedgerModel LedgerProofs MotionModel MotionProofs EitModel EitProofs RrtModel RrtProofs RrtConnectModel RrtConnectProofs LazyRrtModel LazyRrtProofs PdfModel EstModel EstProofs EstFloat RrtStarModel RrtStarProofs RrtStarCost.
 Import ListNotations.
 Local Open Scope Z_scope.
 
@@ -156,7 +156,7 @@ Proof. exact est_solve_spec. Qed.
 
 (* geometric::RRTstar (RrtStarModel: k-nearest neighbourhoods, parent selection in order of cost with delayed motion checks, rewiring
    with cost propagation to the descendants, goal motions / best cost / approximate solution, termination on a satisfied objective).
-   FULL STATEMENT wanted for C01: whenever the planner reports a path, the path begins at a start state, every consecutive pair is a
+   (Kept beside the full theorem below because it needs NO hypothesis on the order of costs.)  FULL STATEMENT wanted for C01: whenever the planner reports a path, the path begins at a start state, every consecutive pair is a
    motion the validator accepted in the direction it is traversed, and an exact report ends in a state the goal accepts.
    PROVED (hence _partial), for every objective, validator, neighbourhood size function, tape and sampler: the whole tree consists of
    such motions after any number of iterations — the rewired ones included —, roots are start states, every consecutive pair of the
@@ -179,6 +179,33 @@ Theorem C01_rrtstar_reports_only_validated_motions_partial :
   end.
 Proof. exact star_solve_partial. Qed.
 
+(* geometric::RRTstar, the FULL statement, for an objective with an order on costs in which combining a cost with a motion cost never
+   decreases it (cle a b := not (b < a) transitive, < irreflexive, nn (mcost a b), nn identity, a <= a + i for nn i — path length and
+   mechanical work over the reals or the non-NaN binary64 numbers, the integers of the example below): for every threshold, validator,
+   neighbourhood size function, tape and sampler the tree stays acyclic (rewiring through the new motion is only done when the cost
+   through it is strictly better, while every ancestor of the new motion costs no more than it), updateChildCosts restores
+   cost = parent's cost + incCost in the whole subtree, and a reported path begins at a start state, consists of motions validated in
+   the direction they are traversed, ends in the reported motion (whose cost is the stored cost), and an exact report ends in a goal state *)
+Theorem C01_rrtstar_reports_only_real_paths :
+  forall (St C : Type) (clt : C -> C -> bool) (cadd : C -> C -> C) (c0 : C) (dflt : St),
+  (forall a b c : C, cle C clt a b -> cle C clt b c -> cle C clt a c) ->
+  forall nn : C -> Prop, (forall a i : C, nn i -> cle C clt a (cadd a i)) -> (forall a : C, clt a a = false) -> nn c0 ->
+  forall (dist mcost : St -> St -> C) (sym : bool) (csat : C -> bool) (steer : St -> St -> St) (maxd : C) (mv : St -> St -> bool) (sat : St -> bool)
+         (gdist : St -> C) (goal_state : St) (bias : C) (kof : nat -> nat),
+  (forall a b : St, nn (mcost a b)) ->
+  forall (starts : list St) (iters : nat) (tape : list C) (samples : list St), starts <> nil ->
+  let res := star_solve St C dist clt cadd c0 mcost sym csat steer maxd mv sat gdist goal_state dflt bias kof starts iters tape samples in
+  RrtStarProofs.EInv St C c0 mv dflt starts (fst res) /\ FInv St C cadd c0 dflt nn (fst res) /\
+  match snd res with
+  | Some (path, approx, _, stored, _) =>
+      path <> nil /\ In (hd dflt path) starts /\ consecutive (fun a b : St => mv a b = true) path /\
+      (exists i : nat, (i < length (fst res))%nat /\ last path dflt = n_st St C (nd St C c0 dflt (fst res) i) /\ stored = n_cost St C (nd St C c0 dflt (fst res) i)) /\
+      (approx = false -> sat (last path dflt) = true)
+  | None => True
+  end.
+Proof. exact star_solve_full. Qed.
+
+Print Assumptions C01_rrtstar_reports_only_real_paths.
 Print Assumptions C01_rrtstar_reports_only_validated_motions_partial.
 Print Assumptions C01_est_reports_only_real_paths.
 Print Assumptions C01_rlrt_reports_only_real_paths.
@@ -259,3 +286,15 @@ Example C01_est_nonvacuous :
     [Some (1, 0.5); Some (2, 2); None; Some (0.5, 0.25); Some (3, 3); Some (4, 4)])%float
   = [[0; 0; -1; 1; 0.5; 0; 2; 2; 0; 0.5; 0.25; 0; 3; 3; 0]; [1; 0x1.e768d399dc470p+2; 0; 0; 3; 3]; [0.5; 0.5; 1; 0x1.5555555555555p-2; 1]]%float.
 Proof. vm_compute. reflexivity. Qed.
+
+(* the order hypotheses of the full RRT* theorem are met by the integers with +, <, non-negative motion costs *)
+Example C01_rrtstar_order_hypotheses_nonvacuous :
+  (forall a b c : Z, cle Z Z.ltb a b -> cle Z Z.ltb b c -> cle Z Z.ltb a c) /\
+  (forall a i : Z, (0 <= i)%Z -> cle Z Z.ltb a (a + i)%Z) /\ (forall a : Z, Z.ltb a a = false) /\ (0 <= 0)%Z.
+Proof.
+  unfold cle. repeat split.
+  - intros a b c H1 H2. apply Z.ltb_ge in H1. apply Z.ltb_ge in H2. apply Z.ltb_ge. apply (Z.le_trans _ b); assumption.
+  - intros a i Hi. apply Z.ltb_ge. apply (Z.le_trans _ (a + 0)); [rewrite Z.add_0_r; apply Z.le_refl|apply Z.add_le_mono_l; exact Hi].
+  - intros a. apply Z.ltb_irrefl.
+  - apply Z.le_refl.
+Qed.
